@@ -190,10 +190,12 @@ func scopesRealBlocks(thorough bool) []Scope {
 		{"NetherlandsRDNewQuad", 14, 155000, 463000}, {"NetherlandsRDNewQuad", 14, 20000.3, 380000.7}, {"NetherlandsRDNewQuad", 5, 20000.3, 380000.7},
 		{"WebMercatorQuad", 17, 550000.1, 6800000.2}, {"WebMercatorQuad", 12, 550000.1, 6800000.2}, {"WebMercatorQuad", 17, -20037000, -20037000},
 		{"EuropeanETRS89_LAEAQuad", 14, 4000000.3, 3200000.1}, {"NZTM2000Quad", 16, 1600000.2, 5400000.4},
+		// deepest ids far from the origin: coordinate products of ~1e11..1e14 against pixels of millimetres, where
+		// floating-point steps that look harmless near the origin (areas, orientation tests) lose their last bits
+		{"NetherlandsRDNewQuad", 16, 250000.5, 600000.5}, {"WebMercatorQuad", 18, 19000000.3, 19000000.7},
 	}
 	if thorough {
-		anchors = append(anchors, anchor{"WorldMercatorWGS84Quad", 15, 550000.1, 6800000.2}, anchor{"UPSArcticWGS84Quad", 12, 2000000.1, 2000000.3},
-			anchor{"NetherlandsRDNewQuad", 16, 250000.5, 600000.5}, anchor{"WebMercatorQuad", 18, 19000000.3, 19000000.7})
+		anchors = append(anchors, anchor{"WorldMercatorWGS84Quad", 15, 550000.1, 6800000.2}, anchor{"UPSArcticWGS84Quad", 12, 2000000.1, 2000000.3})
 	}
 	var scs []Scope
 	for _, a := range anchors {
